@@ -10,27 +10,46 @@ import solve_suite as ss
 import solve_oracles as so
 
 MODULE = "DfolsVerif.Properties.C04"
-BUILD_TARGETS = ss.ACCEPT_TARGETS
-THEOREMS = ["Dfols.C04.C04_best", "Dfols.C04.C04_hist_complete", "Dfols.C04.C04_restart_monotone"]
+BUILD_TARGETS = ss.ACCEPT_TARGETS + ["DfolsVerif.Driver.RadiusDrv"]
+THEOREMS = ["Dfols.C04.C04_best", "Dfols.C04.C04_hist_complete", "Dfols.C04.C04_restart_monotone",
+            "Dfols.C04.C04_ratio_gate", "Dfols.C04.C04_negative_pred_exits", "Dfols.C04.gen_calcRatio_eq",
+            "Dfols.C04.gen_mayReplaceKopt_eq", "Dfols.C04.gen_skipKopt_guards", "Dfols.C04.C04_gen_ratio_gate", "Dfols.C04.gen_model_decisions", "Dfols.C04.gen_restart_merge"]
 TRUSTED_EXTRA = [
+    "AST-to-Lean translator harness/gen_kernels.py for calculate_ratio's decision tail and the skip_kopt=False gate; the definitions of pred_reduction / actual_reduction (numpy reductions) are inputs of the kernel, recomputed by the tracer with the package's own helpers",
     "model = event lists accepted by BookAcc.step; theorem for traces without sample averaging and without a regulariser",
     "with a regulariser the property holds only up to rounding of h(x) (objective of one point recomputed at xbase+points[k]): partial, checked by the search with tolerance 1e-9",
     "objective values of the evaluations are recomputed by the harness from the recorded residuals (np.dot) and must equal the values the model stored (checked by the acceptor when h is None)",
 ]
+
+
+def pre_build(ctx):
+    import gen_kernels
+    ctx.cov["translated_kernels"] = gen_kernels.regenerate(ctx) + gen_kernels.regenerate_model(ctx)
+
+
 ALLOW = ("bounds", "scaling", "proj", "soft", "hard", "npt", "growing", "regression", "noise", "diag", "randinit", "parallel", "regu")
 
 
 def mutate(rng, prob, kw, d):
     # the rare exits: two projections with x0 near an intersection, tight trust regions
-    if d.get("proj") and rng.random() < 0.7:
+    force = (not d.get("proj")) and ("bounds" not in kw) and kw.get("h") is None and rng.random() < 0.15
+    if force or (d.get("proj") and rng.random() < 0.7):
         import problems
         x0 = prob["x0"]
         c = x0 + rng.normal(size=prob["n"]) * 0.5
         P = [lambda x, c=c: problems.pball(x, c, 1.0), lambda x, lo=x0 - 0.7, hi=x0 + 0.7: problems.pbox(x, lo, hi)]
+        if force or rng.random() < 0.5:
+            # a small feasible region around x0 whose ball and box are both active at the constrained minimiser:
+            # near convergence the projected-gradient steps give (slightly) negative predicted reductions
+            c = x0 + rng.normal(size=prob["n"]) * 0.2
+            rad = float(rng.uniform(0.5, 1.2))
+            lo, hi = c - rng.uniform(0.2, 1.0, size=prob["n"]), c + rng.uniform(0.2, 1.0, size=prob["n"])
+            P = [lambda x, c=c, rad=rad: problems.pball(x, c, rad), lambda x, lo=lo, hi=hi: problems.pbox(x, lo, hi)]
+            d["active_region"] = True
         kw["projections"] = P
         d["proj"] = 2
-        kw["maxfun"] = 100
-        d["maxfun"] = 100
+        kw["maxfun"] = 100 if not d.get("active_region") else 200
+        d["maxfun"] = kw["maxfun"]
 
 
 def _runs(ctx):
@@ -46,6 +65,22 @@ def correspondence(ctx):
     runs, metas, stats = _runs(ctx)
     keep = [i for i, m in enumerate(metas) if not m[3].get("user_params", {}).get("init.run_in_parallel")]
     ss.check_acceptor(ctx, "book", [runs[i] for i in keep], [metas[i] for i in keep])
+    # the ratio gate: (ratio, exit flag) of every calculate_ratio call, bit for bit
+    from core import fbits, fbits_raw
+    lines, want, where = [], [], []
+    for (seed, prob, kw, d, t, fault) in metas:
+        for i, e in enumerate(t.events):
+            if e[0] == "rat":
+                _, pred, actual, nproj, r, flag = e
+                lines.append("ratio %d %s %s" % (nproj, fbits_raw(pred), fbits_raw(actual)))
+                want.append("%s %s" % (fbits(r), flag))
+                where.append((seed, i, pred, actual))
+    out = core.run_driver(lines, main="RadiusMain.lean") if lines else []
+    mism = [(l, o, w, wh) for l, o, w, wh in zip(lines, out, want, where) if o.rsplit(" ", 1)[0] != w]
+    ctx.cov["ratio_gate"] = {"calls_compared": len(lines), "negative_pred": sum(1 for w in where if w[2] < 0), "mismatches": len(mism)}
+    for m in mism[:4]:
+        ctx.broke("correspondence:calcRatio-vs-observed", {"line": m[0], "lean": m[1], "observed": m[2], "seed": m[3][0], "event": m[3][1],
+                                                           "pred_reduction": m[3][2], "actual_reduction": m[3][3]})
     ctx.cov["runs"] = stats
 
 
